@@ -167,6 +167,15 @@ fn to_snake_case(mut str: &str) -> String {
     words.join("_")
 }
 
+/// Identifier for a generated method: a name whose snake_case form is a Rust keyword
+/// (`Type` -> `type`) becomes a raw identifier (`r#type`); the few keywords that cannot be raw
+/// (`self`, `super`, `crate`) get a trailing underscore.
+fn method_ident(name: &str) -> Ident {
+    syn::parse_str::<Ident>(name)
+        .or_else(|_| syn::parse_str::<Ident>(&format!("r#{}", name)))
+        .unwrap_or_else(|_| format_ident!("{}_", name))
+}
+
 impl<'short, 'long: 'short> ToTokenStream<'short, 'long> for VStruct<'long> {
     fn to_tokenstream(
         &'long self,
@@ -334,7 +343,7 @@ fn varlink_to_rust(idl: &IDL, options: &GeneratorOptions, tosource: bool) -> Res
         let mut out_anot: Vec<TokenStream> = Vec::new();
 
         let call_name = Ident::new(&format!("Call_{}", t.name), Span::call_site());
-        let method_name = Ident::new(&to_snake_case(t.name), Span::call_site());
+        let method_name = method_ident(&to_snake_case(t.name));
         let varlink_method_name = format!("{}.{}", idl.name, t.name);
 
         generate_anon_struct(
